@@ -149,3 +149,122 @@ Section Lowering.
     ravel (moved (map (pidx rho) din)) (map psize dout) = pos rho dout /\ ravel (map (pidx rho) din) (map psize din) = pos rho din.
   Proof. intros Bin Bout. rewrite moved_is_the_meaning by assumption. split; reflexivity. Qed.
 End Lowering.
+
+(* ---------------------------------------------------------------- alignment of an element-wise input *)
+Lemma nodupb_NoDup l : nodupb l = true -> NoDup l.
+Proof.
+  induction l as [|x r IH]; intros H; [constructor|]. cbn [nodupb] in H. apply andb_prop in H as [H1 H2]. constructor; [|now apply IH].
+  intros Hin. apply memNb_In in Hin. rewrite Hin in H1. discriminate.
+Qed.
+
+Lemma nodup_leaf_inj (L : list (N * N * bool)) x y :
+  NoDup (map (fun z => fst (fst z)) L) -> In x L -> In y L -> fst (fst x) = fst (fst y) -> x = y.
+Proof.
+  induction L as [|c l IH]; intros Hnd Hx Hy E; [contradiction|]. cbn [map] in Hnd. inversion Hnd as [|? ? Hc Hl]; subst.
+  destruct Hx as [->|Hx], Hy as [->|Hy]; auto.
+  - exfalso. apply Hc. rewrite E. apply in_map_iff. eauto.
+  - exfalso. apply Hc. rewrite <- E. apply in_map_iff. eauto.
+Qed.
+
+Section Align.
+  Variable V : Type.
+  Variable inp : nat -> entries V.
+  Variable F : String.string -> list (entries V) -> list String.string -> entries V.
+  Variable BC : list N -> list N -> entries V -> entries V.
+  Variable CC : nat -> list (list N * entries V) -> entries V.
+  Variables din dout : list pex.
+  Hypothesis Hok : align_ok din dout = true.
+
+  Let Hplain_in : forallb plain din = true.
+  Proof. unfold align_ok in Hok. repeat (apply andb_prop in Hok as [Hok ?]). exact Hok. Qed.
+  Let Hnd_in : nodupb (lnames din) = true.
+  Proof. unfold align_ok in Hok. repeat (apply andb_prop in Hok as [Hok ?]). assumption. Qed.
+  Let Hnd_out : nodupb (lnames dout) = true.
+  Proof. unfold align_ok in Hok. apply andb_prop in Hok as [Hok _]. apply andb_prop in Hok as [_ H]. exact H. Qed.
+  Let Hsub : sub_axes din dout = true.
+  Proof. unfold align_ok in Hok. apply andb_prop in Hok as [_ H]. exact H. Qed.
+
+  (* the output-order list of the input's own axes *)
+  Definition own : list (N * N) := filter (fun nl => present din (fst nl)) (onames dout).
+
+  (* where an element ends up: output leaf order, 0 where the input has no such axis *)
+  Definition aligned_idx (rho : env) : list N :=
+    map (fun nl => if present din (fst nl) then lookup rho (fst nl) else 0) (onames dout).
+
+  Lemma ravel_unit_insert (rho : env) : forall l : list (N * N),
+    ravel (map (fun nl => if present din (fst nl) then lookup rho (fst nl) else 0) l)
+          (map (fun nl => if present din (fst nl) then snd nl else 1) l)
+    = ravel (map (fun nl => lookup rho (fst nl)) (filter (fun nl => present din (fst nl)) l))
+            (map snd (filter (fun nl => present din (fst nl)) l)).
+  Proof.
+    induction l as [|[n len] r IH]; [reflexivity|]. cbn [map filter fst snd]. destruct (present din n); cbn [map fst snd].
+    - rewrite !ravel_cons, IH. f_equal. f_equal. clear. induction r as [|[n2 l2] r IH]; [reflexivity|]. cbn [map filter fst snd].
+      destruct (present din n2); cbn [map snd]; rewrite !nprod_cons, IH; lia.
+    - rewrite ravel_cons, IH. lia.
+  Qed.
+
+  (* an own axis has the length it has in the input *)
+  Lemma own_len n len : In (n, len) own -> exists m, In (n, len, m) (leaves din).
+  Proof.
+    unfold own. rewrite filter_In. intros [Hin Hp]. cbn [fst] in Hp. unfold present in Hp. apply memNb_In in Hp.
+    unfold lnames in Hp. apply in_map_iff in Hp as [[[n1 l1] m1] [E Hx]]. cbn [fst] in E. subst n1.
+    unfold sub_axes in Hsub. rewrite forallb_forall in Hsub. specialize (Hsub _ Hx). apply existsb_exists in Hsub as [[[n2 l2] m2] [Hy E2]].
+    cbn [fst snd] in E2. apply andb_prop in E2 as [E3 E4]. apply N.eqb_eq in E3, E4. subst n2 l2.
+    (* the output has one leaf named n: its length is len *)
+    unfold onames in Hin. apply in_map_iff in Hin as [[[n3 l3] m3] [E5 Hz]]. cbn [fst snd] in E5. injection E5 as -> ->.
+    assert (l1 = len).
+    { pose proof (nodupb_NoDup _ Hnd_out) as ND. unfold lnames in ND.
+      assert (Hi : (n, l1, m2) = (n, len, m3)); [|now injection Hi].
+      apply (nodup_leaf_inj (leaves dout)); auto. }
+    subst l1. eauto.
+  Qed.
+
+  Lemma gather_own_lens : gather 0 (llens din) (perm_align din dout) = map snd own.
+  Proof.
+    unfold gather, perm_align. fold own. rewrite map_map. apply map_ext_in. intros [n len] Hin. cbn [fst snd].
+    destruct (own_len n len Hin) as [m Hm]. apply (nth_index_of_leaf (leaves din) n len Hnd_in). eauto.
+  Qed.
+
+  Lemma gather_own_idx rho : gather 0 (map (lookup rho) (lnames din)) (perm_align din dout) = map (fun nl => lookup rho (fst nl)) own.
+  Proof.
+    unfold gather, perm_align. fold own. rewrite map_map. apply map_ext_in. intros [n len] Hin. cbn [fst].
+    unfold own in Hin. apply filter_In in Hin as [_ Hp]. cbn [fst] in Hp. unfold present in Hp. apply memNb_In in Hp.
+    apply (nth_index_of (lookup rho) 0 _ _ Hp).
+  Qed.
+
+  Definition moved_align (idx : list N) : list N :=
+    unravel (ravel (gather 0 (unravel (ravel idx (map psize din)) (llens din)) (perm_align din dout)) (map snd own)) (bshape din dout).
+
+  Lemma meval_align k : meval V inp F BC CC (lower_align k din dout) = map (fun iv => (moved_align (fst iv), snd iv)) (inp k).
+  Proof.
+    unfold lower_align. cbn [meval mshape]. unfold e_reshape, e_transpose. rewrite !map_map. apply map_ext. intros [i v]. cbn [fst snd].
+    unfold moved_align. rewrite gather_own_lens. reflexivity.
+  Qed.
+
+  Theorem aligned_is_the_meaning rho : in_bounds rho din -> moved_align (map (pidx rho) din) = aligned_idx rho.
+  Proof.
+    intros Bin. unfold moved_align. pose proof (plain_dims_offset_free _ Hplain_in) as Oin.
+    change (ravel (map (pidx rho) din) (map psize din)) with (pos rho din).
+    rewrite (pos_leaves rho din Oin), llens_dims, lidx_dims, (unravel_ravel _ _ (leaf_valid rho din Bin)), gather_own_idx.
+    unfold own. rewrite <- (ravel_unit_insert rho (onames dout)). unfold bshape, aligned_idx. apply unravel_ravel.
+    assert (Hv : forall l : list (N * N),
+               (forall nl, In nl l -> present din (fst nl) = true -> lookup rho (fst nl) < snd nl) ->
+               Forall2 N.lt (map (fun nl => if present din (fst nl) then lookup rho (fst nl) else 0) l)
+                            (map (fun nl => if present din (fst nl) then snd nl else 1) l)).
+    { induction l as [|[n len] r IH]; intros H; cbn [map]; constructor.
+      - cbn [fst snd]. destruct (present din n) eqn:Ep; [|lia]. apply (H (n, len)); [now left|exact Ep].
+      - apply IH. intros nl Hnl. apply H. now right. }
+    apply Hv. intros [n len] Hin Hp. cbn [fst snd] in *.
+    destruct (own_len n len) as [m Hm]; [unfold own; apply filter_In; split; [exact Hin|exact Hp]|].
+    apply (Bin (n, len, m) Hm).
+  Qed.
+
+  (* every element of the input is found in the aligned tensor at the output's leaf coordinates (0 where the input lacks the axis) *)
+  Theorem lower_align_correct k rho v :
+    in_bounds rho din -> In (map (pidx rho) din, v) (inp k) ->
+    In (aligned_idx rho, v) (meval V inp F BC CC (lower_align k din dout)).
+  Proof.
+    intros Bin Hin. rewrite meval_align. apply in_map_iff. exists (map (pidx rho) din, v). split; [|exact Hin].
+    cbn [fst snd]. now rewrite aligned_is_the_meaning.
+  Qed.
+End Align.
